@@ -1353,3 +1353,7 @@ Proof.
   - destruct (HK p E) as (Hn & _). contradiction.
   - cbn [negb] in Hev. inversion Hev; subst. unfold wake. destruct (p_selecting st); exact He.
 Qed.
+
+(* the clamp is invisible for every duration that fits an i64 *)
+Lemma eff_timeout_in_range d : in_i64 d = true -> eff_timeout d = Z.max d 0.
+Proof. unfold eff_timeout, to_i64_or_max. intros ->. reflexivity. Qed.
